@@ -16,7 +16,7 @@ import sys
 import time
 
 ROOT = os.path.dirname(os.path.dirname(os.path.abspath(__file__)))
-REPO = "/repo"
+REPO = os.environ.get("VERIF_REPO", "/repo")
 
 
 def sh(cmd, cwd=None, env=None, timeout=3600):
@@ -43,7 +43,7 @@ def added_files(patch):
 
 
 def confirm(d, meta):
-    wt = "/tmp/wt/confirm-%d" % os.getpid()
+    wt = os.path.join(os.environ.get("VERIF_SCRATCH", "/tmp/wt"), "confirm-%d" % os.getpid())
     res = {}
     sh(["git", "-C", REPO, "worktree", "add", "--detach", wt, "HEAD"])
     try:
